@@ -293,3 +293,13 @@ func VX_C07_HandlerAwaitsCloseNotify(args []int) {
 	vxAssert(vxCount(log, "rec:PostDisconnect") == 1, "the disconnect hook runs exactly once for an established session")
 	vxCover("c07.handler-awaits-closenotify")
 }
+
+
+// vxNamer is a dial/accept hook that names the session.
+type vxNamer struct{ id string }
+
+func (n *vxNamer) Name() string { return "vxnamer" }
+func (n *vxNamer) PostDial(s PreSession, isRedial bool) *Status {
+	s.SetID(n.id)
+	return nil
+}
